@@ -9,6 +9,13 @@ Sub-checks
              are the same objects, input tree unchanged, no edit => identical object back
   parallel   2-4 non-editing scripts in one ParallelVisitor: each member's log == its solo log
   root       every decision on the root, on enter and on leave: returns without raising
+  typeinfo   the same scripted visitors wrapped in TypeInfoVisitor(TypeInfo(schema), v) over documents
+             written against a generated schema (valid, near-valid mutants, fragment arguments,
+             grammar-random): the wrapped visitor sees the reference call log and returns the same
+             result as the bare visitor; at every enter and leave the eleven TypeInfo getters report
+             what the recursive reference R9 (vkit/ref/typeinfo.py) computes for that position, whatever
+             was skipped, removed or replaced on leave elsewhere; after a complete traversal every
+             getter is back to its initial value
 """
 
 from __future__ import annotations
@@ -16,8 +23,9 @@ from __future__ import annotations
 import dataclasses
 
 from vkit.core import Sub, Violation, given_run
-from vkit.gen import g1
+from vkit.gen import g1, g2, g3, g5
 from vkit.gen.choice import from_bytes
+from vkit.ref import typeinfo as R9
 from vkit.ref import visit as R3
 
 ID = "C11"
@@ -37,7 +45,7 @@ ASSUMPTIONS = [
 ACTIONS = ["skip", "remove", "replace", "break", "replace_str"]
 
 
-def make_visitor(script, id_map, root, log, problems, style_kinds=()):
+def make_visitor(script, id_map, root, log, problems, style_kinds=(), observer=None):
     from graphql.language import BREAK, REMOVE, SKIP, Visitor
 
     stack = []
@@ -62,6 +70,8 @@ def make_visitor(script, id_map, root, log, problems, style_kinds=()):
         return None
 
     def enter(self, node, key, parent, path, ancestors):
+        if observer:
+            observer("enter", node)
         idx = id_map.get(id(node), -1)
         pdesc = None if parent is None else ("list" if isinstance(parent, tuple) else
                                              getattr(parent, "kind", "?"))
@@ -83,6 +93,8 @@ def make_visitor(script, id_map, root, log, problems, style_kinds=()):
         return act(a, node)
 
     def leave(self, node, key, parent, path, ancestors):
+        if observer:
+            observer("leave", node)
         idx = stack.pop() if stack else -2
         pdesc = None if parent is None else ("list" if isinstance(parent, tuple) else
                                              getattr(parent, "kind", "?"))
@@ -325,13 +337,177 @@ def _root(nex):
     return fn
 
 
+# ------------------------------------------------------------------------------------------
+# typeinfo: scripted visitors wrapped in TypeInfoVisitor
+
+
+def add_fragment_arguments(c, m, tree):
+    """Give some fragments variable definitions and their spreads arguments (experimental syntax)."""
+    frags = {d["n"]: d for d in tree["defs"] if d["k"] == "frag"}
+    if not frags:
+        return False
+    declared = {}
+    for name, d in frags.items():
+        if c.chance(160):
+            vs = []
+            for i in range(c.count(1, 2)):
+                t = g2.g_input_type(c, m)
+                vs.append({"desc": None, "n": f"fa{i}", "t": g3._g1_type(t),
+                           "default": g5.value_to_lit(m, t, g2.g_value(c, m, t, 2)) if c.chance(80) else None,
+                           "dirs": []})
+                declared.setdefault(name, []).append((f"fa{i}", t))
+            d["vars"] = vs
+
+    def walk(sels):
+        for s in sels or []:
+            if s["k"] == "spread" and c.chance(200):
+                args = []
+                for an, t in declared.get(s["n"], []):
+                    if c.chance(200):
+                        args.append([an, g5.value_to_lit(m, t, g2.g_value(c, m, t, 2))])
+                if c.chance(40):
+                    args.append(["undeclared", {"k": "list", "vs": [{"k": "enum", "v": "X"}]}])
+                s["args"] = args or None
+            elif s.get("sel"):
+                walk(s["sel"])
+
+    for d in tree["defs"]:
+        walk(d.get("sel"))
+    tree["frag_args"] = True
+    return True
+
+
+def eval_typeinfo(case):
+    from graphql.language import parse, visit
+    from graphql.utilities import TypeInfo, TypeInfoVisitor
+
+    vs = []
+    jc = dict(case)
+
+    def bad(rel, detail, cls="typeinfo"):
+        vs.append(Violation(("C11", rel, cls), detail, jc, {"relation": rel, "class": cls}))
+
+    m = g2.as_model(case["model"])
+    schema = g2.build(m)
+    tree = case["tree"]
+    text = g1.layout(g1.to_tokens(tree), case["lay"])
+    flags = dict(experimental_fragment_arguments=bool(tree.get("frag_args")))
+    try:
+        twin = parse(text, **flags)
+    except Exception:  # noqa: BLE001
+        return vs, 0, {}
+    root = parse(text, no_location=True, **flags) if case["no_location"] else twin
+    nodes = R3.preorder(root, twin)
+    n = len(nodes)
+    id_map = {id(x): i for i, x in enumerate(nodes)}
+    script = {(ph, i % n): a for ph, i, a in case["script"]}
+    exp_log, _exp_res, broke = R3.ref_visit(root, twin, script, id_map)
+    expected = R9.expected(schema, root)
+    # bare run
+    log0, problems0 = [], []
+    try:
+        res0 = visit(root, make_visitor(script, id_map, root, log0, problems0, case.get("style", [])))
+    except Exception as e:  # noqa: BLE001
+        bad("visit-raises", f"bare: {type(e).__name__}: {e}")
+        return vs, n, script
+    # wrapped run
+    log, problems = [], []
+    ti = TypeInfo(schema)
+    initial = R9.observe(ti)
+    seen = []
+    replaced_on_enter = any(ph == "enter" and a == "replace" for (ph, _i), a in script.items())
+    inner = make_visitor(script, id_map, root, log, problems, case.get("style", []),
+                         observer=lambda ph, node: seen.append((ph, id(node), node.kind, R9.observe(ti))))
+    try:
+        res = visit(root, TypeInfoVisitor(ti, inner))
+    except Exception as e:  # noqa: BLE001
+        bad("visit-raises", f"wrapped in TypeInfoVisitor: {type(e).__name__}: {e}; "
+            f"script {sorted(script.items())}")
+        return vs, n, script
+    if log != exp_log:
+        bad("typeinfo-call-log", _first_diff(log, exp_log) + f"; script {sorted(script.items())}")
+    elif log0 == exp_log and g1.sig(res) != g1.sig(res0) and not broke:
+        bad("typeinfo-result", f"wrapped and bare visitor return different trees; script {sorted(script.items())}")
+    for p in problems[:1]:
+        bad("position-arguments", "wrapped: " + p)
+    if not replaced_on_enter:
+        for ph, nid, kind, got in seen:
+            want = expected.get(nid)
+            if want is not None and got != want:
+                diff = [f"{f}: got {g!r} expected {w!r}" for f, g, w in zip(R9.FIELDS, got, want) if g != w]
+                bad("typeinfo-values", f"{ph} {kind} (preorder #{id_map.get(nid)}): {diff[:3]}; "
+                    f"script {sorted(script.items())}; {text!r}")
+                break
+    if not broke:
+        final = R9.observe(ti)
+        if final != initial:
+            diff = [f"{f}: {g!r}" for f, g, w in zip(R9.FIELDS, final, initial) if g != w]
+            bad("typeinfo-unbalanced", f"after the traversal: {diff}; script {sorted(script.items())}; {text!r}")
+    return vs, n, script
+
+
+def g_typeinfo_case(c):
+    m = g2.g_model(c)
+    k = c.pick(10)
+    stratum = "valid"
+    if k <= 6:
+        doc = g3.g_document(c, m, depth=3)
+        if k >= 3:
+            for _ in range(c.count(1, 2)):
+                r = g3.mutate_document(c, m, doc)
+                if r is not None:
+                    doc = r[0]
+                    stratum = "mutant"
+        tree = doc["tree"]
+        if c.chance(110) and add_fragment_arguments(c, m, tree):
+            stratum += "+fragment-arguments"
+    else:
+        tree = g1.g_document(c, mode="exec", max_defs=3)
+        stratum = "grammar-random"
+    nsteps = c.count(0, 4)
+    script = []
+    for _ in range(nsteps):
+        a = c.choose(["skip", "skip", "remove", "replace", "break", "replace_str", "remove", "skip"])
+        ph = "enter" if (a == "skip" or c.chance(150)) else "leave"
+        script.append([ph, c.pick(600), a])
+    style = [c.choose(["field", "name", "selection_set", "argument", "directive", "variable",
+                       "inline_fragment", "fragment_spread", "list_value", "object_field"])
+             for _ in range(c.count(0, 2))] if c.chance(80) else []
+    return {"model": dict(m), "tree": tree, "lay": c.ints(4) if c.chance(60) else [],
+            "no_location": c.chance(70), "script": script, "style": style, "stratum": stratum}
+
+
+def _typeinfo(nex):
+    def fn(ctx, shard, nshards):
+        def body(case):
+            vs, n, script = eval_typeinfo(case)
+            if not n:
+                return
+            ctx.count(2)
+            ctx.cls("typeinfo:" + case["stratum"])
+            for a in set(script.values()):
+                ctx.cls("typeinfo-action:" + a)
+            if script and n >= 6:
+                ctx.nontriv({"t": case["tree"], "s": case["script"], "ti": 1})
+                ctx.sample("typeinfo:" + case["stratum"], case)
+            ctx.check(vs)
+
+        given_run(ctx, from_bytes(g_typeinfo_case, 3072), body, max_examples=nex)
+
+    return fn
+
+
 def subchecks(tier):
     if tier == "quick":
         return [Sub("scripted", _scripted(7000), shards=12, weight=3),
-                Sub("root", _root(500), shards=2, weight=1)]
+                Sub("root", _root(500), shards=2, weight=1),
+                Sub("typeinfo", _typeinfo(1500), shards=6, weight=2)]
     return [Sub("scripted", _scripted(100000), shards=16, weight=3),
-            Sub("root", _root(6000), shards=8, weight=1)]
+            Sub("root", _root(6000), shards=8, weight=1),
+            Sub("typeinfo", _typeinfo(40000), shards=16, weight=2)]
 
 
 def replay(case):
+    if "model" in case:
+        return eval_typeinfo(case)[0]
     return eval_case(case)[0]
